@@ -621,7 +621,9 @@ def r04_16(ctx: Ctx) -> None:
                   construct="_read_digest without seek")
     callers = [c for c in q.calls(shared.szf(ctx, "test")) if attr_tail(c) == "_read_digest"]
     for c in callers:
-        ok = len(c.args) >= 2 and "packpos" in norm(q.expand_locals(shared.szf(ctx, "test"), c.args[0])) + norm(c.args[0]) and "packsizes" in norm(c.args[1])
+        tf = shared.szf(ctx, "test")
+        ok = len(c.args) >= 2 and (q.derives_from(tf, c.args[0], lambda x: isinstance(x, ast.Attribute) and x.attr == "packpos", depth=4) or "packpos" in norm(c.args[0])) \
+            and (q.derives_from(tf, c.args[1], lambda x: isinstance(x, ast.Attribute) and x.attr == "packsizes", depth=4) or "packsizes" in norm(c.args[1]))
         ctx.check(ok, "R04.16", shared.szf(ctx, "test"), c, "test() hashes stream i at its position with its size", "test() does not pass (position, packsizes[i]) to _read_digest", construct="test digest args")
 
 
